@@ -241,7 +241,7 @@ def run(chk):
             t[-1] = rng.choice(['K 0 i', 'K 3 i', 'K 3 g', 'L i0 i1', 'L e0 F0'])
             ex.append(' ; '.join(t))
     hs += ex
-    nrand = 12000 if quick else 150000
+    nrand = 20000 if quick else 150000
     for i in range(nrand):
         hs.append(gen_history(rng, rng.choice([2, 4, 6, 9, 14]), gen_share=0.25 if quick else 0.4))
     chk.log('%d histories (%d corpus, %d exhaustive, %d random)' % (len(hs), ncorpus, len(ex), nrand))
